@@ -11,7 +11,7 @@ from decimal import (Context, Decimal, ROUND_HALF_EVEN, ROUND_FLOOR, ROUND_CEILI
 from fractions import Fraction
 from multiprocessing import Pool
 
-DIR = "/verif/target/c02"
+DIR = os.path.join(os.environ.get("VERIF_ROOT") or os.path.dirname(os.path.dirname(os.path.abspath(__file__))), "target", "c02")
 NULL = "NULL"
 UNSPEC = "UNSPEC"
 
